@@ -16,6 +16,7 @@ from .stream import Unaligned
 Z3_TIMEOUT_MS = 10000
 CVC5_TIMEOUT_MS = 10000
 PORTFOLIO = ()          # extra z3 seeds tried on 'unknown' (set by the retry pass of main.run)
+FINITISE = True         # on 'unknown', look for a counter-model among small instances (sizes <= 0, 1, 2)
 
 
 class Task:
@@ -50,6 +51,24 @@ def discharge(ob, timeout_ms=Z3_TIMEOUT_MS, use_cvc5=True):
             if r != z3.unknown:
                 s = s2
                 break
+    if r == z3.unknown and FINITISE:
+        # refutation by small instances: bound every size-like constant (an Int constant the path condition says is >= 0)
+        # by 0, 1, 2 in turn.  A model of the strengthened query is a model of the query: 'sat' here is a genuine refutation.
+        sizes = _size_constants(pcs)
+        for bound in (0, 1):
+            if not sizes:
+                break
+            s3 = z3.Solver()
+            s3.set("timeout", 2000)
+            for f in pcs:
+                s3.add(f)
+            s3.add(z3.Not(zbool(ob.goal)))
+            for c in sizes:
+                s3.add(c <= bound)
+            if s3.check() == z3.sat:
+                r, s = z3.sat, s3
+                ob.finitised = bound
+                break
     ob.backend = "z3"
     if r == z3.unsat:
         ob.result = "proved"
@@ -70,6 +89,28 @@ def discharge(ob, timeout_ms=Z3_TIMEOUT_MS, use_cvc5=True):
                 ob.model = {}
     ob.time = time.time() - t0
     return ob
+
+
+def _size_constants(pcs):
+    """Int constants c for which some conjunct of the path condition is  c >= 0  /  0 <= c  /  c >= k (k >= 0)"""
+    out = {}
+
+    def visit(f, depth=0):
+        if z3.is_and(f) and depth < 4:
+            for ch in f.children():
+                visit(ch, depth + 1)
+            return
+        if z3.is_app(f) and f.num_args() == 2:
+            a, b = f.arg(0), f.arg(1)
+            k = f.decl().kind()
+            if k == z3.Z3_OP_GE and z3.is_int_value(b) and b.as_long() >= 0 and z3.is_const(a) and a.decl().kind() == z3.Z3_OP_UNINTERPRETED and a.sort() == z3.IntSort():
+                out[a.decl().name()] = a
+            if k == z3.Z3_OP_LE and z3.is_int_value(a) and a.as_long() >= 0 and z3.is_const(b) and b.decl().kind() == z3.Z3_OP_UNINTERPRETED and b.sort() == z3.IntSort():
+                out[b.decl().name()] = b
+    for f in pcs:
+        if isinstance(f, z3.ExprRef):
+            visit(f)
+    return list(out.values())[:40]
 
 
 def _symbols(f, cache={}):
